@@ -507,6 +507,11 @@ class Batch:
                     n = red
         return n, self.outcome(n)
 
+    def enum_witness(self, node):
+        """the items of a stand-alone header showing `node` as a plain enumerator (with what it refers to)"""
+        pr = dict(k="enum", name="VP_w", en="vp_w", node=node)
+        return self.support([pr]) + [pr]
+
     # -- keys
     def key_for(self, node, outcome, ctxnote=""):
         cat = {"wrong": "wrong-value", "uneval": "unevaluated", "missing": "missing"}.get(outcome[0])
@@ -520,7 +525,7 @@ class Batch:
             vals = [E.try_eval(c) for c in cs]
             got = outcome[1]
             if node[0] == "bin" and vals[0] and vals[1]:
-                sig += ":got=" + ("lhs" if got == vals[0][0] else "rhs" if got == vals[1][0] else "other")
+                sig += ":got=" + ("operand" if got in (vals[0][0], vals[1][0]) else "other")
             elif node[0] in ("un", "cast", "par") and vals[0]:
                 sig += ":got=" + ("operand" if got == vals[0][0] else "other")
         return "%s:%s%s" % (cat, sig, ctxnote)
@@ -640,23 +645,25 @@ def explain(B, failing):
                 B.subst.pop(id(it), None)
                 if mn is not None:
                     key, witness, minnode = B.key_for(mn, mo), "enum VP { vp = %s };" % E.render(mn, 3), mn
+                    wit = B.enum_witness(mn)
                     break
             if key is None:
                 # only fails in its own context (e.g. as an array bound): minimise within that context
-                key, witness, minnode = ctx_minimise(B, it, ob)
-            report(B, key, it, cn, witness, ob, minnode)
+                key, witness, minnode, wit = ctx_minimise(B, it, ob)
+            report(B, key, it, cn, witness, ob, minnode, wit)
             continue
         node = failing_node(it, cn)
         if node is None:
             key = "%s:implicit-increment:prev=%s" % (CAT[ob[0]], implicit_prev(it, cn))
-            report(B, key, it, cn, emit_item(it), ob, None)
+            report(B, key, it, cn, emit_item(it), ob, None, B.support([it]) + [it])
             continue
         mn, mo = B.minimise(node)
         if mn is None:
-            key, witness, minnode = ctx_minimise(B, it, ob, cn)
+            key, witness, minnode, wit = ctx_minimise(B, it, ob, cn)
         else:
             key, witness, minnode = B.key_for(mn, mo), "enum VP { vp = %s };" % E.render(mn, 3), mn
-        report(B, key, it, cn, witness, ob, minnode)
+            wit = B.enum_witness(mn)
+        report(B, key, it, cn, witness, ob, minnode, wit)
 
 
 def failing_node(it, cn):
@@ -673,7 +680,7 @@ def implicit_prev(it, cn):
     for e, n in it["elems"]:
         if e == cn:
             return prev
-        prev = "implicit" if n is None else E.root_sig(n).split(",")[0]
+        prev = "implicit" if n is None else (E.root_sig(n).split(",")[0] if n[0] == "lit" else E.root_sig(n))
     return prev
 
 
@@ -685,7 +692,7 @@ def ctx_minimise(B, it, ob, cn=None):
     cat = ob[1][0] if ob[0] == "proc" else CAT.get(ob[0], ob[0])
     node = failing_node(it, cn) if cn else (item_nodes(it) or [None])[0]
     if node is None:
-        return "%s:ctx=%s" % (cat, ctxname), emit_item(it), None
+        return "%s:ctx=%s" % (cat, ctxname), emit_item(it), None, B.support([it]) + [it]
 
     def mkprobe(n):
         B.pn += 1
@@ -713,7 +720,8 @@ def ctx_minimise(B, it, ob, cn=None):
     out = fails(cur)
     if out is None or out[0] == "ok":
         # not reproducible in isolation: report the item itself, keyed by context + root construct
-        return "%s:%s:ctx=%s,not-isolated" % (cat, E.root_sig(node), ctxname), emit_item(it), node
+        return "%s:%s:ctx=%s,not-isolated" % (cat, E.root_sig(node), ctxname), emit_item(it), node, \
+            B.support([it]) + [it]
     while True:
         bad = []
         for c in E.children(cur):
@@ -727,7 +735,7 @@ def ctx_minimise(B, it, ob, cn=None):
     # does the minimal node already fail as a plain enumerator?  then the context is not the point
     mn, mo = B.minimise(cur)
     if mn is not None:
-        return B.key_for(mn, mo), "enum VP { vp = %s };" % E.render(mn, 3), mn
+        return B.key_for(mn, mo), "enum VP { vp = %s };" % E.render(mn, 3), mn, B.enum_witness(mn)
     # reduce while the same failure stays: references -> literals of the same value, literals -> plain decimal,
     # root operator -> '+'; what remains is what matters
     def attempt(cand):
@@ -752,24 +760,54 @@ def ctx_minimise(B, it, ob, cn=None):
             for x in leaves(c, path + (child_slot(n, i),)):
                 yield x
 
+    def plainlit(v):
+        lit = ["lit", str(abs(v)), abs(v), "i"]
+        if v == E.INT_MIN:
+            return ["par", ["bin", "-", ["un", "-", ["lit", str(E.INT_MAX), E.INT_MAX, "i"]], ["lit", "1", 1, "i"]]]
+        return lit if v >= 0 else ["par", ["un", "-", lit]]
+
+    # 1. whole operands -> the plain literal of their value
+    for i, c in enumerate(E.children(cur)):
+        v = E.try_eval(c)
+        if v is not None and c[0] != "lit":
+            attempt(replace_at(cur, [child_slot(cur, i)], plainlit(v[0])))
+    # 2. remaining references -> literals
     for path, lf in list(leaves(cur)):
-        if lf[0] == "ref" and len(path) <= 3:
-            v = lf[3]
-            lit = ["lit", str(abs(v)), abs(v), "i"]
-            attempt(replace_at(cur, list(path), lit if v >= 0 else ["par", ["un", "-", lit]]))
+        if lf[0] == "ref" and node_at(cur, path) is lf:
+            attempt(replace_at(cur, list(path), plainlit(lf[3])))
+    # 3. remaining literals -> simpler spellings (the simplest one that keeps the failure)
     for path, lf in list(leaves(cur)):
-        if lf[0] == "lit" and len(path) <= 3:
+        if lf[0] == "lit" and node_at(cur, path) is lf:
             for red in E.literal_reductions(lf):
                 attempt(replace_at(cur, list(path), red))
-    if cur[0] == "bin" and cur[1] != "+":
-        attempt(["bin", "+", cur[2], cur[3]])
+    if cur[0] == "bin":
+        # does the operator matter?  (one of a+b, a-b is always in range)
+        for op in ("+", "-"):
+            if cur[1] == op:
+                break
+            before = cur
+            attempt(["bin", op, cur[2], cur[3]])
+            if cur is not before:
+                break
     kinds = sorted({k for c in E.children(cur) for k in ref_kinds(c)})
     lits = sorted({f for c in E.children(cur) for nd in E.subexprs(c) if nd[0] == "lit"
                    for f in E.lit_feats(nd) if f not in ("decimal", "zero", "plain")})
     lits = sorted({("suffix" if f.startswith("suffix=") else f) for f in lits})
+    if "sep" in lits:
+        lits = ["sep"]          # a digit separator is what matters; the base it sits in does not
     note = ":ctx=" + ctxname + (",operand=" + "+".join(kinds) if kinds else "") + \
         (",lit=" + "+".join(lits) if lits else "")
-    return B.key_for(cur, out, note), emit_item(mkprobe(cur)), cur
+    pr = mkprobe(cur)
+    return B.key_for(cur, out, note), emit_item(pr), cur, B.support([pr]) + [pr]
+
+
+def node_at(n, path):
+    try:
+        for sl in path:
+            n = n[sl]
+    except (IndexError, TypeError):
+        return None
+    return n
 
 
 def ref_kinds(n):
@@ -785,7 +823,7 @@ def child_slot(n, i):
     return {"un": [2], "cast": [3], "par": [1], "bin": [2, 3], "cond": [1, 2, 3]}[n[0]][i]
 
 
-def report(B, key, it, cn, witness, ob, minnode):
+def report(B, key, it, cn, witness, ob, minnode, wit_items=None, replay=None):
     res = B.res
     if minnode is not None and minnode[0] == "cast" and minnode[2] not in ("int", "bool") and \
             key.startswith("unevaluated:"):
@@ -803,6 +841,11 @@ def report(B, key, it, cn, witness, ob, minnode):
     if minnode is not None:
         exp = E.try_eval(minnode)
         detail["witness_expected"] = exp[0] if exp else None
+    if wit_items is not None:
+        # a self-contained case that shows this failure again: ./check C07 --replay on {"case": <this>}
+        detail["replay_case"] = dict(id="w", kind="explicit", items=wit_items, prelude=B.prelude)
+    if replay is not None:
+        detail["replay_case"] = replay
     res.count("failing_constants")
     res.features.add("failure:" + key)
     res.violation(key, **detail)
@@ -1083,7 +1126,7 @@ def run_uneval(ctx, case, res):
             res.count("failing_constants")
             res.features.add("failure:%s:unevaluable:ctx=%s" % (st1[0], it["k"]))
             res.violation("%s:unevaluable:ctx=%s" % (st1[0], it["k"]), witness=UNEVAL_PRELUDE + emit_item(it),
-                          got=str(st1))
+                          got=str(st1), replay_case=dict(id="w", kind="uneval", items=[it]))
             continue
         if cn not in gxx:
             res.count("oracle_missing")
@@ -1096,7 +1139,8 @@ def run_uneval(ctx, case, res):
                 key = "wrong-value:evaluable-operand:kind=%s,wrap=%s" % (kind, wrap)
             else:
                 key = "wrong-value:unevaluable:kind=%s" % kind
-            report(B, key, it, cn, UNEVAL_PRELUDE + emit_item(it), ("wrong", ob[1], gxx[cn]), None)
+            report(B, key, it, cn, UNEVAL_PRELUDE + emit_item(it), ("wrong", ob[1], gxx[cn]), None,
+                   replay=dict(id="w", kind="uneval", items=[it]))
         elif ob[0] == "val":
             res.count("unevaluable_evaluated_correctly")
         elif ob[0] == "missing":
@@ -1183,5 +1227,7 @@ def main(chk):
         cases.append(dict(id="u%d" % i, kind="uneval", subseed=chk.rng.getrandbits(48), n=chk.pick(40, 80)))
     chk.run_cases(__name__, cases)
     chk.extra["operator_pairs_total"] = len(pairs)
-    chk.extra["operator_pairs_seen_equal"] = len([f for f in chk.features if f.startswith("pair:")])
+    chk.extra["operator_pair_signatures_seen_equal"] = len([f for f in chk.features if f.startswith("pair:")])
+    chk.extra["operator_pairs_forced_seen_equal"] = len({f.replace(":paren", "") for f in chk.features
+                                                        if f.startswith("pair:")})
     chk.min_conclusive = max(1, len(cases) // 2)
